@@ -35,6 +35,10 @@ CHECKS = {
         "regenerated from errno_status.c; sem_conservation and sem_no_lost_wakeup for the abstract counter on every interleaving. Tie: sem_posix.c is run with sem_wait/sem_trywait/sem_timedwait/clock_gettime wrapped; status, "
         "call count and the abstime received are compared with the model.",
    note="The kernel semaphore, real time and signal delivery are modelled, not verified: the schedule clauses are theorems about an abstract counter composed with the documented behaviour of sem_*.", ref="§5 C17"),
+ "C13": dict(cat="translation_validation", tech="Lean 4 executable BitVec model with constants regenerated from digest.c, validated against the implementation and against reference fasthash64/murmur3 copies; injectivity theorems in progress",
+   text="Model = code = reference algorithms on all lengths 0..72 x alignments 0..7 with the buffer flush against ASan-poisoned memory; an implementation-only sensitivity oracle checks seed / block / zero-extension changes. "
+        "Sensitivity theorems (seed_injective, block_injective, length laws, aligned = general) are being added; the unrestricted fasthash64 length clause is false of the algorithm itself (known finding with kernel-checked witness).",
+   note="little-endian platform; 64-bit size_t; purity is by construction of the model (a function of seed and bytes) and observed at two addresses per input.", ref="§5 C13"),
 }
 
 NOT_YET = "check not built yet in this revision (framework under construction; see DESIGN.md §8)"
